@@ -23,7 +23,6 @@
 package queue
 
 import (
-	"sync"
 	"sync/atomic"
 	"unsafe"
 
@@ -31,11 +30,18 @@ import (
 )
 
 // Queue defines a lock-free Queue.
+//
+// Nodes are never recycled. A dequeued node may still be referenced by a
+// concurrent Enqueue (as its stale tail) or Dequeue (as its stale head);
+// resetting such a node and handing it out again lets the stale operation link
+// a value behind a node that is no longer part of the queue (the value is lost)
+// or read a cleared value. The garbage collector reclaims a node once no
+// operation can reach it, which is what makes the Michael-Scott algorithm safe
+// without hazard pointers or tagged pointers.
 type Queue struct {
 	head unsafe.Pointer // pointer to the head of the queue
 	tail unsafe.Pointer // pointer to the tail of the queue
 	len  int64          // length of the queue
-	pool sync.Pool
 }
 
 // item is a single node in the queue.
@@ -52,19 +58,13 @@ func NewQueue() *Queue {
 		head: unsafe.Pointer(dummy), // both head and tail point to the dummy node
 		tail: unsafe.Pointer(dummy),
 		len:  0,
-		pool: sync.Pool{
-			New: func() any {
-				return &item{}
-			},
-		},
 	}
 }
 
 // Enqueue adds a value to the tail of the queue.
 func (q *Queue) Enqueue(v any) {
-	// Get a node from the pool
-	newNode := q.getItem()
-	newNode.v = v
+	// Always a fresh node (see Queue)
+	newNode := &item{v: v}
 	newNodePtr := unsafe.Pointer(newNode)
 
 	for {
@@ -116,13 +116,9 @@ func (q *Queue) Dequeue() any {
 		// Try to advance the head
 		verifhook.At("msq.deq.cas", q, int64(uintptr(unsafe.Pointer(head))), int64(uintptr(next)))
 		if atomic.CompareAndSwapPointer(&q.head, unsafe.Pointer(head), next) {
-			// Get the value before potentially releasing the node
+			// nextNode is the new sentinel; the old head is left to the garbage collector
 			verifhook.At("msq.deq.readv", q, int64(uintptr(next)), 0)
 			value := nextNode.v
-
-			// Release the old head node back to the pool
-			verifhook.At("msq.deq.release", q, int64(uintptr(unsafe.Pointer(head))), 0)
-			q.releaseItem(head)
 
 			// Decrement length atomically
 			verifhook.At("msq.deq.len", q, 0, 0)
@@ -141,19 +137,4 @@ func (q *Queue) Length() uint64 {
 // IsEmpty returns true when the queue is empty
 func (q *Queue) IsEmpty() bool {
 	return atomic.LoadInt64(&q.len) == 0
-}
-
-// getItem retrieves a node from the pool or creates a new one
-func (q *Queue) getItem() *item {
-	return q.pool.Get().(*item)
-}
-
-// releaseItem returns a node to the pool for reuse
-func (q *Queue) releaseItem(i *item) {
-	// Reset i to prevent memory leaks
-	i.v = nil
-	verifhook.At("msq.rel.next", q, int64(uintptr(unsafe.Pointer(i))), 0)
-	i.next = nil
-	verifhook.At("msq.rel.put", q, int64(uintptr(unsafe.Pointer(i))), 0)
-	q.pool.Put(i)
 }
